@@ -225,6 +225,45 @@ Definition compare_obs (fn : nat -> string) (names : list string) (o : observati
 Definition ref_fuel : nat := 4000.
 Definition vm_fuel : nat := 400000.
 
+(* ---------------------------------------------------------------- entries through the host API *)
+Definition hcall := (string * list value)%type.
+
+(* the machine is entered on an idle thread: a frame without function identity pushes the
+   callee and its arguments, calls it, and records the result like trace("<result>", v) *)
+Definition stub_code (gi : nat) (args : list value) : list insn :=
+  [PREDECLARED "trace"; CONSTANT (VStr "<result>"); GLOBAL gi (0, 0)] ++ map CONSTANT args
+  ++ [CALL 0 (length args) 0 (0, 0); CALL 0 2 0 (0, 0); RETURN].
+
+Fixpoint vm_calls (cp : cprog) (fn : nat -> string) (globals : list string) (calls : list hcall)
+         (g : genv) (w : world) : option (vresult * nat) :=
+  match calls with
+  | [] => Some (VDone g w, 0)
+  | (f, args) :: r =>
+      match index_of f globals with
+      | None => Some (VUnsup "host-call:no-such-global", 0)
+      | Some gi =>
+          let st := {| vs_frames := [{| fr_fid := None; fr_code := stub_code gi args; fr_pc := 0; fr_stack := [];
+                                        fr_locals := []; fr_iters := []; fr_free := [] |}];
+                       vs_g := g; vs_w := w |} in
+          match run cp fn vm_fuel st with
+          | Some (VDone g' w', _) => vm_calls cp fn globals r g' w'
+          | other => other
+          end
+      end
+  end.
+
+(* initialisation, then (if it succeeded and there are host calls) freezing and the calls *)
+Definition vm_with_calls (cp : cprog) (fn : nat -> string) (globals : list string) (calls : list hcall)
+           (r : option (vresult * nat)) : option (vresult * nat) :=
+  match calls, r with
+  | _ :: _, Some (VDone g w, _) => vm_calls cp fn globals calls g (freeze_all w)
+  | _, _ => r
+  end.
+
+(* (c) *)
+Definition ref_check_calls (p : program) (calls : list hcall) (tr : list event) (x : expect) : string :=
+  compare_obs (fname p) (global_names p) (observe_ref (run_module_calls p ref_fuel calls)) tr x.
+
 (* (c) *)
 Definition ref_check (p : program) (tr : list event) (x : expect) : string :=
   compare_obs (fname p) (global_names p) (observe_ref (run_module p ref_fuel)) tr x.
@@ -251,3 +290,19 @@ Definition compiled_check (p : program) (tr : list event) (x : expect) : string 
 
 Fixpoint name_table (l : list (nat * string)) (fid : nat) : string :=
   match l with [] => "?" | (i, s) :: r => if Nat.eqb i fid then s else name_table r fid end.
+
+Definition vm_check_calls (cp : cprog) (fn : nat -> string) (globals : list string) (calls : list hcall)
+           (tr : list event) (x : expect) (steps : nat) : string :=
+  let r := run cp fn vm_fuel (init_state cp (length globals)) in
+  match calls, r with
+  | _ :: _, Some (VDone _ _, n) =>
+      if negb (Nat.eqb n steps) then "mismatch:steps"
+      else compare_obs fn globals (observe_vm (vm_with_calls cp fn globals calls r)) tr x
+  | _, _ => vm_check cp fn globals tr x steps
+  end.
+
+Definition compiled_check_calls (p : program) (calls : list hcall) (tr : list event) (x : expect) : string :=
+  let cp := compile_prog (number_prog (fold_prog p)) in
+  compare_obs (fname p) (global_names p)
+    (observe_vm (vm_with_calls cp (fname p) (global_names p) calls (run_compiled p vm_fuel))) tr x.
+
